@@ -537,13 +537,23 @@ impl Wallet {
     /// slips that are not about to be rebroadcast, and no more of them than a transaction can
     /// carry as inputs (same rules and same order as in generate_slips).
     pub fn get_spendable_balance(&self, latest_block_id: u64, genesis_period: u64) -> Currency {
+        self.spendable_balance_with(latest_block_id, genesis_period, u8::MAX as usize)
+    }
+
+    /// what the first `max_inputs` slips generate_slips would go through are worth
+    fn spendable_balance_with(
+        &self,
+        latest_block_id: u64,
+        genesis_period: u64,
+        max_inputs: usize,
+    ) -> Currency {
         self.unspent_slips_in_selection_order()
             .iter()
             .filter_map(|key| self.slips.get(key))
             .filter(|slip| {
                 slip.block_id > latest_block_id.saturating_sub(genesis_period.saturating_sub(1))
             })
-            .take(u8::MAX as usize)
+            .take(max_inputs)
             .fold(0 as Currency, |sum, slip| sum.saturating_add(slip.amount))
     }
 
@@ -899,7 +909,13 @@ impl Wallet {
             let additional_needed = nft_create_deposit_amt - nft_input_amount;
             // what generate_slips can draw on has to cover the rest of the deposit, otherwise
             // the transaction would pay out more than it consumes. the NFT slip goes back.
-            if self.get_spendable_balance(latest_block_id, genesis_period) < additional_needed {
+            // (one of the inputs a transaction can carry is taken by the NFT slip itself)
+            if self.spendable_balance_with(
+                latest_block_id,
+                genesis_period,
+                u8::MAX as usize - 1,
+            ) < additional_needed
+            {
                 if let Some(slip) = self.slips.get_mut(&utxo_key) {
                     slip.spent = false;
                     self.available_balance += slip.amount;
